@@ -178,6 +178,9 @@ func RunBatch(property string, p Profile, verifSeed uint64, from, to int, mandat
 				out.Foreign[v.Property+"/"+v.Sig]++
 			}
 		}
+		if f := r.Foreign; f != nil {
+			out.Foreign[f.Property+"/"+f.Sig]++
+		}
 		if len(out.Samples) < 2 && r.Violation == nil && faulted && st.Actions < 900 {
 			out.Samples = append(out.Samples, makeSample(r, p.Name, 120))
 		}
